@@ -812,6 +812,66 @@ def corrupt_named(ver, name, path, junk_json):
     return run_corrupt_case(ci, ji)
 
 
+# ---------------------------------------------------------------- g. every object reference of a 2.0 container resolves inside it
+SCOPE_SITES = [  # (member carrying the reference, path of the reference inside it, is it a list, allowed target types, nested?)
+    ({"type": "directory", "path": "p"}, "contains_refs", True, ("file", "directory"), False),
+    ({"type": "file", "name": "g"}, "parent_directory_ref", False, ("directory",), False),
+    ({"type": "network-traffic", "protocols": ["tcp"]}, "src_ref", False, ("ipv4-addr", "ipv6-addr", "mac-addr", "domain-name"), False),
+    ({"type": "file", "name": "a.zip", "extensions": {"archive-ext": {}}}, "extensions.archive-ext.contains_refs", True, ("file",), True),
+    ({"type": "network-traffic", "protocols": ["http"], "src_ref": "ip", "extensions": {"http-request-ext": {"request_method": "get", "request_value": "/"}}},
+     "extensions.http-request-ext.message_body_data_ref", False, ("artifact",), True),
+    ({"type": "email-message", "is_multipart": True, "body_multipart": [{"content_type": "text/plain"}]}, "body_multipart.0.body_raw_ref", False, ("artifact", "file"), True),
+    ({"type": "process", "pid": 1, "extensions": {"windows-service-ext": {"service_name": "s"}}}, "extensions.windows-service-ext.service_dll_refs", True, ("file",), True),
+]
+SCOPE_TARGETS = {"file": {"type": "file", "name": "f"}, "directory": {"type": "directory", "path": "d"}, "ip": {"type": "ipv4-addr", "value": "1.2.3.4"},
+                 "artifact": {"type": "artifact", "payload_bin": "YWJj"}, "mutex": {"type": "mutex", "name": "m"}}
+
+
+def local_scope(si: int, target: int) -> bool:
+    """
+    pre: 0 <= si < len(SCOPE_SITES) and 0 <= target <= 5
+    post: _
+    """
+    si, target = pick(si, len(SCOPE_SITES)), pick(target, 6)
+    with Native():
+        ok = run_scope_case(si, target)
+    V.reached()
+    return ok
+
+
+def run_scope_case(si, target):
+    """a reference names: each kind of member present in the container (right or wrong type for that reference), or a key that is not there.
+    If strict construction succeeds, the reference resolves to a member of an allowed type."""
+    member, path, is_list, allowed, nested = SCOPE_SITES[si]
+    if nested and K.open("C02-refs-inside-extensions-20"):
+        return True                         # known open finding (class: a reference inside an extension / embedded object of a 2.0 observable)
+    names = sorted(SCOPE_TARGETS)
+    key = names[target] if target < len(names) else "absent"
+    objects = {k: dict(v) for k, v in SCOPE_TARGETS.items()}
+    objects["m"] = h_C17.set_path(_with_leaf(member, path), path, [key] if is_list else key)
+    try:
+        o = stix2.v20.ObservedData(first_observed=gen.TS, last_observed=gen.TS, number_observed=1, objects=objects)
+    except (STIXError, ValueError, TypeError):
+        return True                         # refusing is always safe here (C03 asks for acceptance of valid content)
+    out = json.loads(o.serialize())["objects"]
+    cur = out["m"]
+    for part in path.split("."):
+        cur = cur[int(part)] if isinstance(cur, list) else cur[part]
+    refs = cur if is_list else [cur]
+    return all(r in out and out[r]["type"] in allowed for r in refs)
+
+
+def _with_leaf(member, path):
+    """make sure every container on the way to the leaf exists"""
+    d = copy.deepcopy(member)
+    cur = d
+    parts = path.split(".")
+    for part in parts[:-1]:
+        cur = cur[int(part)] if isinstance(cur, list) else cur.setdefault(part, {})
+    if not isinstance(cur, list):
+        cur.setdefault(parts[-1], None)
+    return d
+
 # ---------------------------------------------------------------- c'. presence-only co-constraints, table driven (symbolic presence flags)
 def _x509_21_list():
     return ['is_self_signed', 'hashes', 'version', 'serial_number', 'signature_algorithm', 'issuer']
